@@ -152,11 +152,14 @@ OMP = 'src/correlation/optical_map.py::OpticalMap.'
 PLANS['C01'] = Plan(
     'C01', [AP + 'deduplicate', AP + '__deduplicateByKey', OMP + 'getPositionsWithSiteIds', AE + '__getAlignedPairs',
             SF + '_AlignmentSegmentBuilder.getSegments', 'src/alignment/segment_chainer.py::SegmentChainer.chain',
-            'src/alignment/segments.py::_SegmentPairWithConflict.__trimSegmentsAtOptimalPosition'], 'other',
+            'src/alignment/segments.py::_SegmentPairWithConflict.__trimSegmentsAtOptimalPosition',
+            'src/alignment/segments.py::_SegmentPairWithConflict.resolveConflict', 'src/alignment/segments.py::AlignmentSegment.getReferenceLabels',
+            'src/alignment/segments.py::AlignmentSegment.getQueryLabels', AE + 'align', AE + '__getNotAlignedPositions'], 'other',
     "Deductive links (proved for all inputs): label numbers handed to the pairing step are shift+1..shift+n of the named map (getPositionsWithSiteIds), "
     "candidates pair window labels with query labels (__getAlignedPairs), after the two de-duplication passes a peak's pairs are one-to-one on both label "
     "numbers with strictly increasing reference labels (deduplicate), segments are contiguous runs of that list (segment builder), the chain is a "
-    "sub-list with each segment once (chain). BOUNDED: the composed statement (strict query monotonicity per strand, disjointness across the segments "
+    "sub-list with each segment once (chain); the conflict cut is made on the label table chosen by the seed-peak order and at each segment's own m-th label "
+    "(resolveConflict, label tables, equal-index cut). BOUNDED: the composed statement (strict query monotonicity per strand, disjointness across the segments "
     "of a record, joined records, at least one pair, every file of every mode, every candidate row) is a run-time contract on the records written by the real "
     "program and on the candidates it builds, on generated CMAP sets. Cross-segment disjointness is genuinely violated by the pinned code through the two "
     "known conflict-resolution findings (C15 K1/K2); a failing record is attributed to them only if the conflict monitor saw that mechanism for that query.",
